@@ -109,3 +109,133 @@ def joint_monotonicity_viol(w, sizes, pairs):
     mid = (L[1:, :-1] + L[:-1, 1:]) / 2
     worst = max(worst, float((mid - L[1:, 1:]).max()), float((L[:-1, :-1] - mid).max()))
   return worst
+
+
+def joint_unimodality_rows(sizes, juni):
+  """Rows (coefficient vectors over one unit's flattened kernel) of the joint
+  unimodality inequalities  <row, w> >= 0, exactly the hyperplanes the code
+  projects onto (vertex / offsets enumeration of project_by_dykstra)."""
+  rows = []
+  shape = list(sizes)
+  strides = [int(np.prod(shape[d + 1:])) for d in range(len(shape))]
+  for dims, direction in juni or []:
+    dims = list(dims)
+    ub = [sizes[d] for d in dims]
+    centre = [s // 2 for s in ub]
+    others = [d for d in range(len(sizes)) if d not in dims]
+    for vertex in itertools.product(*[range(s) for s in ub]):
+      if all(v == c for v, c in zip(vertex, centre)):
+        continue
+      for offsets in itertools.product([-1, 1], repeat=len(dims)):
+        eq, verts, ok = [], [], True
+        for k, off in enumerate(offsets):
+          dw = vertex[k] - centre[k]
+          if dw == 0:
+            continue
+          nb = list(vertex)
+          nb[k] += off
+          if nb[k] < 0 or nb[k] >= ub[k]:
+            ok = False
+            break
+          verts.append(nb)
+          eq.append(dw * off)
+        if not ok or not verts:
+          continue
+        verts.append(list(vertex))
+        eq.append(-sum(eq))
+        sign = 1.0 if direction == "valley" else -1.0
+        for rest in itertools.product(*[range(sizes[d]) for d in others]):
+          row = np.zeros(int(np.prod(sizes)))
+          for v, cf in zip(verts, eq):
+            full = [0] * len(sizes)
+            for d, val in zip(dims, v):
+              full[d] = val
+            for d, val in zip(others, rest):
+              full[d] = val
+            row[sum(f * s for f, s in zip(full, strides))] += sign * cf
+          rows.append(row)
+  return rows
+
+
+def joint_unimodality_viol(w, sizes, juni):
+  rows = joint_unimodality_rows(sizes, juni)
+  if not rows:
+    return -np.inf
+  w = np.asarray(w, dtype=np.float64)
+  A = np.array(rows)
+  return float((-(A @ w)).max())
+
+
+def constraint_rows(cfg, families=("mono", "uni", "edge", "trap", "mdom", "jmono")):
+  """Dense rows A (one unit) with  A w >= 0  for the homogeneous families."""
+  sizes = cfg["sizes"]
+  n = int(np.prod(sizes))
+  idx = np.arange(n).reshape(sizes)
+  rows = []
+
+  def add(pairs):
+    row = np.zeros(n)
+    for i, c in pairs:
+      row[i] += c
+    rows.append(row)
+
+  if "mono" in families:
+    for d, m in enumerate(cfg["monos"]):
+      if m:
+        lo = np.take(idx, range(sizes[d] - 1), axis=d).ravel()
+        hi = np.take(idx, range(1, sizes[d]), axis=d).ravel()
+        for a, b in zip(lo, hi):
+          add([(b, 1.0), (a, -1.0)])
+  if "uni" in families:
+    for d, u in enumerate(cfg["uni"]):
+      if u:
+        for i in range(sizes[d] - 1):
+          first = i < sizes[d] // 2
+          inc = (u == -1 and first) or (u == 1 and not first)
+          lo = np.take(idx, [i], axis=d).ravel()
+          hi = np.take(idx, [i + 1], axis=d).ravel()
+          for a, b in zip(lo, hi):
+            add([(b, 1.0), (a, -1.0)] if inc else [(a, 1.0), (b, -1.0)])
+  def layers(a, b):
+    return np.moveaxis(idx, [a, b], [0, 1])
+  if "edge" in families:
+    for m, c, dr in cfg["edge"]:
+      L = layers(m, c)
+      for i in range(L.shape[0] - 1):
+        for j in range(L.shape[1] - 1):
+          for p, q, r, s in zip(L[i + 1, j + 1].ravel(), L[i, j + 1].ravel(), L[i + 1, j].ravel(), L[i, j].ravel()):
+            add([(p, dr), (q, -dr), (r, -dr), (s, dr)])
+  if "trap" in families:
+    for m, c, dr in cfg["trap"]:
+      L = layers(m, c)
+      for j in range(L.shape[1] - 1):
+        for a, b in zip(L[0, j].ravel(), L[0, j + 1].ravel()):
+          add([(a, dr), (b, -dr)])
+        for a, b in zip(L[-1, j + 1].ravel(), L[-1, j].ravel()):
+          add([(a, dr), (b, -dr)])
+  if "mdom" in families:
+    for a_, b_ in cfg["mdom"]:
+      L = layers(a_, b_)
+      for i in range(L.shape[0] - 1):
+        for j in range(L.shape[1] - 1):
+          for p, q, r, s in zip(L[i + 1, j].ravel(), L[i, j].ravel(), L[i + 1, j + 1].ravel(), L[i, j + 1].ravel()):
+            add([(p, 1.0), (q, -0.5), (r, -0.5)])
+            add([(q, 0.5), (r, 0.5), (s, -1.0)])
+  if "jmono" in families:
+    for a_, b_ in cfg["jmono"]:
+      L = layers(a_, b_)
+      for i in range(L.shape[0] - 1):
+        for j in range(L.shape[1] - 1):
+          for p, q, r, s in zip(L[i + 1, j + 1].ravel(), L[i + 1, j].ravel(), L[i, j + 1].ravel(), L[i, j].ravel()):
+            add([(p, 1.0), (q, -0.5), (r, -0.5)])
+            add([(q, 0.5), (r, 0.5), (s, -1.0)])
+  return np.array(rows) if rows else np.zeros((0, n))
+
+
+def nearest_feasible(w, A):
+  """Euclidean projection of w onto {x : A x >= 0} (Moreau / NNLS on the dual)."""
+  from scipy.optimize import nnls  # pylint: disable=g-import-not-at-top
+  if A.shape[0] == 0:
+    return np.array(w, dtype=np.float64)
+  lam, _ = nnls(A.T, -np.asarray(w, dtype=np.float64), maxiter=50 * A.shape[0] + 1000)
+  return np.asarray(w, dtype=np.float64) + A.T @ lam
